@@ -864,7 +864,7 @@ func constants() []constant {
 		{rx(""), "regex-empty", false}, {rx(`\/`), "regex-escaped-slash", false},
 		// backslashes in front of the delimiter, even and odd runs: only an odd run escapes it
 		{rx(`a\\/b`), "regex-backslash-backslash-slash", false}, {rx(`a\\\/b`), "regex-three-backslashes-slash", false},
-		{rx(`\\`), "regex-backslash-last", false}, {rx(`/`), "regex-slash-only", false}, {rx(`a/b/c`), "regex-two-slashes", false},
+		{rx(`\\`), "regex-backslash-last", false}, {rx("a\nb"), "regex-control-character", false}, {rx("a\x01b\tc"), "regex-control-character", false}, {rx(`/`), "regex-slash-only", false}, {rx(`a/b/c`), "regex-two-slashes", false},
 		{l(), "list-empty", false}, {l(int64(1)), "list", false}, {l(int64(1), "a"), "list", false}, {l(1.5, true, nil), "list", false},
 		{l("a'b", `c\d`), "list-string-escapes", false}, {l(l(int64(1))), "list-nested", false}, {l(int64(-1), -2.5), "list-negative", false},
 		{l(1.0), "list-float-integral", false}, {l(int64(1), "a"), "list-go-int", true}, {l(scriptref.Nothing{}), "list-nothing", false},
@@ -872,7 +872,7 @@ func constants() []constant {
 }
 
 func constCorpus(cv any) []any {
-	vals := []any{nil, true, false, int64(-1), int64(0), int64(1), int64(2), int64(12), 1.5, 1.0, 0.5, "", "a", "b", "a'b", "a/b", "a.b", "abc", "1",
+	vals := []any{nil, true, false, int64(-1), int64(0), int64(1), int64(2), int64(12), 1.5, 1.0, 0.5, "", "a", "b", "a'b", "a/b", "a.b", "abc", "1", "a\nb", "anb", "a\x01b\tc",
 		[]any{}, []any{int64(1), "a"}, map[string]any{}, scriptref.Nothing{}}
 	switch cv.(type) {
 	case scriptref.Regex, scriptref.Nothing:
